@@ -32,6 +32,13 @@ def run(rep, ctx):
     rep.run_rule("C03.R3", "the exponent of a composing entry flows into the conversion of the value", r3_exponent_flows, ctx)
     rep.run_rule("C03.R4", "add/sub dunders of Scalar and Array dispatch to Sum/Subtract with the right operand order", r4_dispatch, ctx)
     rep.run_rule("C03.R5", "unit matching converts the value whenever (and as often as) it rewrites an entry's unit", r5_label_and_value, ctx)
+    from . import c05
+    from ..report import borrow
+    rep.rule("C03.R6", "compatible operands are accepted: the composing-unit comparison is order-insensitive and only a real mismatch raises (shared with C05.R1)")
+    try:
+        borrow(rep, c05.r1_same_quantity, ctx, "C05.R1", "C03.R6")
+    except AnalysisError as e:
+        rep.error("C03.R6", str(e))
     rep.not_decided += [
         "the numeric result of a+b / a-b (arithmetic on runtime values)",
         "false rejection of dimension-compatible operands written with different symbols (m.m + m2)",
